@@ -1,7 +1,7 @@
 (* C04 — multi-valued features behave like the collection they declare.
    Statements only; proofs are in Proofs/OSetProofs.v. *)
 From Coq Require Import ZArith List Bool.
-From PyecoreV Require Import Lib.PyBase Lib.PyList Model.OSet Model.Coll Proofs.OSetProofs.
+From PyecoreV Require Import Lib.PyBase Lib.PyList Model.OSet Model.Coll Proofs.OSetProofs Gen.KernelTables Proofs.KernelTablesProofs.
 Import ListNotations.
 Open Scope Z_scope.
 
@@ -60,3 +60,13 @@ Example C04_witness :
   let o := fold_left oset_next [CAppend 10; CInsert (-3) (-1); CAppend 20; CPop (-1); CSetItem 0 10] os_empty in
   items o = [10] /\ os_index 10 o = Ok 0.
 Proof. vm_compute. split; reflexivity. Qed.
+
+(* Which collection a declaration gets: ECollection.create, TRANSLATED from valuecontainer.py on every run
+   (Gen/KernelTables.v).  A non-derived many-valued feature is set-like exactly when declared unique and
+   list-like exactly when not, whatever `ordered` says — the dispatch the models (Coll.v, Kernel.v) make. *)
+Theorem C04_the_declared_collection_follows_unique :
+  forall ordered unique,
+    set_like (create_kind false ordered unique) = unique /\
+    list_like (create_kind false ordered unique) = negb unique.
+Proof. exact create_follows_unique. Qed.
+Print Assumptions C04_the_declared_collection_follows_unique.
